@@ -34,7 +34,7 @@ EXPLANATION = (
     "marker per scalar member, every presence flag set, lists of two, a named block per string), the public "
     "writer is executed with the encoder primitives hooked, the tree of (field id, wire type, value) it emits is "
     "replayed into the public parser executed with the decoder primitives hooked, and every member the writer "
-    "serialised must come back in the same member - independent of how writer and parser are organised. Decides these clauses, not value equality for "
+    "serialised must come back in the same member - independent of how writer and parser are organised. (8) thrift_write_varint / thrift_read_varint are LEB128 and thrift_write_binary writes LEB128(length) followed by exactly that many bytes, for values and lengths on either side of every 7-bit boundary (R38); the FileMetaData round-trip probe is repeated with every string empty (a zero-length string comes back as a string, not as absent). Decides these clauses, not value equality for "
     "extreme integers/strings.")
 
 PT = "src/thrift/parquet_types.c"
